@@ -225,6 +225,7 @@ TInfo == /\ \/ Is("sendCall") \/ Is("closeQuit")
             \/ Is("closeCall") \/ Is("closeRet") \/ Is("sExit") \/ Is("rExit")
             \/ Is("blockedAtClose") \/ Is("netAtClose") \/ Is("postSend")
             \/ Is("postRecv") \/ Is("peerCheck") \/ Is("inventory")
+            \/ Is("closeStuck")
          /\ Adv /\ Stutter /\ UNCHANGED <<held, szS, strict>>
          /\ dead' = IF Ev.ev \in {"closeQuit", "fin", "pongTimeout"}
                     THEN [dead EXCEPT ![E] = TRUE] ELSE dead
